@@ -532,6 +532,10 @@ BIG_CASES = [
     ("countnest", 9, "ok"), ("countnest", 14, "ok"), ("countnest", 40, "ok"), ("countnest", 250, "ok"), ("countnest2", 30, "ok"),
     ("sibgroups", 1000, "ok"), ("sibnc", 1000, "ok"), ("siblook", 600, "ok"), ("sibclass", 1000, "ok"), ("sibvclass", 1000, "ok"),
     ("sibvnclass", 1000, "ok"), ("sibvclasstop", 600, "ok"), ("sibquant", 1000, "ok"), ("sibmod", 1000, "ok"),
+    # every nesting construct x every quantifier shape at depths around the optimizer's (100) and the parser's (256) limits
+    ("nestquant", 49, "ok"), ("nestquant", 50, "ok"), ("nestquant", 51, "ok"), ("nestquant", 99, "ok"), ("nestquant", 100, "ok"), ("nestquant", 101, "ok"),
+    ("nestquant", 102, "ok"), ("nestquant", 126, "ok"), ("nestquant", 127, "ok"), ("nestquant", 128, "ok"), ("nestquant", 200, "ok"), ("nestquant", 253, "ok"),
+    ("nestquant", 254, "ok"), ("nestquant", 255, "ok"), ("nestquant", 256, "ok"),
 ]
 BIG_THOROUGH = [("alt", 1000000, "ok"), ("literal", 5000000, "ok"), ("classranges", 1000000, "ok"), ("backrefs", 1000000, "ok"), ("qstrings", 300000, "ok")]
 
